@@ -241,9 +241,24 @@ def part_c(ctx, I, budget):
         dist = np.array(gen.tied_distances(rng, n_rows, m) if ties else gen.distinct_distances(rng, n_rows, m), dtype=float)
         # (edited and multi-candidate modes may leave units without rows: they sit at infinity themselves)
         dkind = kern.extend_distances(rng, dist, ties) if mode not in ("edited", "multicand", "derived") else "plain"
+        if mode == "derived" and rng.random() < 0.5:
+            # raw, unnormalised magnitudes (nanosecond timestamps, squared distances ...): every value stays exact, but `largest + 1` is lost to rounding - a unit
+            # WITHOUT rows must still rank behind every real row
+            dist = dist * float(2 ** rng.choice([54, 56, 60]))
+            dkind = "huge (x 2^54..2^60)"
         ukind = rng.choice(["accuracy", "custom"])
         X = np.arange(n_rows, dtype=float).reshape(-1, 1)
         Xv = np.arange(m, dtype=float).reshape(-1, 1)
+        twin = None
+        if m >= 2 and rng.random() < 0.3:
+            # two validation points with IDENTICAL features (hence identical distances) but, where possible, DIFFERENT labels: each counts on its own
+            j1, j2 = rng.sample(range(m), 2)
+            dist[:, j2] = dist[:, j1]
+            Xv[j2, 0] = Xv[j1, 0]
+            others = [cl for cl in classes if cl != y_test[j1]]
+            if others:
+                y_test[j2] = rng.choice(others)
+            twin = [j1, j2]
         if ukind == "accuracy":
             util = I["utility"].SklearnModelAccuracy(KNeighborsClassifier(n_neighbors=1))
             ureq = {"utility": "accuracy"}
@@ -299,7 +314,7 @@ def part_c(ctx, I, budget):
             groups = [u for u in range(n_units) for _ in range(sizes[u])]
             preq = {"nUnits": n_units, "groups": groups}
             simple = False
-        case = dict(part="c", mode=mode, groups=(ids or groups), y_train=y_train, y_test=y_test, dist=dist.tolist(), **ureq)
+        case = dict(part="c", mode=mode, groups=(ids or groups), y_train=y_train, y_test=y_test, dist=dist.tolist(), validation_points_with_identical_features=twin, **ureq)
         if mc is not None:
             case.update(nUnits=n_units, nCands=mc["n_cands"], lits=mc["lits"], world=mc["world"], world_as=(type(score_kw["world"]).__name__ if score_kw else "default"))
         store = []
@@ -340,20 +355,35 @@ def part_c(ctx, I, budget):
             else:
                 Um = [[Fraction(x) for x in row] for row in U]
                 nlv = [Fraction(x) for x in nl]
-            games = []
-            for j in range(m):
-                def v(S, j=j):
-                    rows = [r for r in range(n_rows) if groups[r] in S and present[r]]
-                    if not rows:
-                        return nlv[j]
-                    if ties:
-                        # nearest unit under the recorded unit order, then its first nearest row
-                        u = min((x for x in S if any(groups[r] == x for r in rows)), key=lambda x: ords[j].index(x))
-                        rows = [r for r in rows if groups[r] == u]
-                    best = min(rows, key=lambda r: (dist[r, j], r))
-                    return Um[enc[y_train[best]]][j]
-                games.append(v)
-            spec_val = spec.shapley(n_units, lambda S: sum(g(S) for g in games) / m)
+            def by_definition(present):
+                games = []
+                for j in range(m):
+                    def v(S, j=j):
+                        rows = [r for r in range(n_rows) if groups[r] in S and present[r]]
+                        if not rows:
+                            return nlv[j]
+                        if ties:
+                            # nearest unit under the recorded unit order, then its first nearest row
+                            u = min((x for x in S if any(groups[r] == x for r in rows)), key=lambda x: ords[j].index(x))
+                            rows = [r for r in rows if groups[r] == u]
+                        best = min(rows, key=lambda r: (dist[r, j], r))
+                        return Um[enc[y_train[best]]][j]
+                    games.append(v)
+                return spec.shapley(n_units, lambda S: sum(g(S) for g in games) / m)
+            spec_val = by_definition(present)
+            if mc is not None and not ties and not isinstance(res, str):
+                # the SAME fitted object and provenance object scored once more under ANOTHER world (other candidate per unit): nothing of the first call may stick
+                w2 = [rng.randint(1, mc["n_cands"] - 1) for _ in range(n_units)]
+                if w2 != list(mc["wvals"]):
+                    try:
+                        res2 = list(np.asarray(imp.score(Xv, np.array(y_test), world=(list(w2) if rng.random() < 0.5 else np.array(w2, dtype=int))), dtype=float))
+                        want2 = by_definition([cc == w2[uu] for uu, cc in mc["lits"]])
+                        ctx.dist["second_score_under_another_world"] += 1
+                        if not ctx.vec_close(res2, want2, 9):
+                            ctx.mismatch("second score() of the same fitted object under another world is not the Shapley value of the 1-NN game of THAT world (state kept from the "
+                                         "first call)", dict(case, second_world=w2), impl=res2, spec=[str(x) for x in want2])
+                    except Exception as e:  # noqa
+                        ctx.mismatch("second score() under another world raised", dict(case, second_world=w2), impl=exc_name(e) + ": " + repr(e))
         if isinstance(res, str):
             ctx.mismatch("score() raised", case, impl=res, model=ans, spec=[str(x) for x in spec_val] if spec_val else None)
             continue
